@@ -470,6 +470,23 @@ Proof.
   - unfold NI in *. cbn [p_a p_b p_i]. rewrite Ea, Eb, Ei. exact HNI.
 Qed.
 
+Lemma wait_sat a b : (step_wait_ns <? tsub a b) = (step_wait_ns <? a - b).
+Proof.
+  unfold tsub, sat64, min_i64, max_i64, step_wait_ns, sec_ns.
+  destruct (Z.ltb_spec (a - b) (-9223372036854775808)).
+  - destruct (Z.ltb_spec (2 * 1000000000) (-9223372036854775808)); [lia|].
+    destruct (Z.ltb_spec (2 * 1000000000) (a - b)); [lia|reflexivity].
+  - destruct (Z.ltb_spec 9223372036854775807 (a - b)); [|reflexivity].
+    destruct (Z.ltb_spec (2 * 1000000000) 9223372036854775807); [|lia].
+    destruct (Z.ltb_spec (2 * 1000000000) (a - b)); [reflexivity|lia].
+Qed.
+
+Lemma min_abs_lt x : (step_min_ns <? Z.min (Z.abs x) max_i64) = (step_min_ns <? Z.abs x).
+Proof.
+  unfold step_min_ns, max_i64.
+  destruct (Z.ltb_spec 1000000 (Z.abs x)); destruct (Z.ltb_spec 1000000 (Z.min (Z.abs x) 9223372036854775807)); lia.
+Qed.
+
 Lemma case_await_step s o u :
   o_started o = true -> o_mono o = true -> p_epoch s = o_epoch o -> p_t s = o_prev o ->
   o_start o <= p_t0 s -> p_t0 s <= p_t s -> NI s ->
@@ -487,20 +504,13 @@ Proof.
   unfold do_await_step.
   destruct (Z.ltb_spec (tsub (u_now u) (p_t0 s)) 0) as [C|_]; [lia|].
   assert (SD : ((step_wait_ns <? tsub (u_now u) (p_t0 s)) && fgt (u_weight u) c_3) = step_due o u).
-  { unfold step_due. f_equal. rewrite <- T0. unfold tsub, sat64.
-    pose proof (sat64_range (u_now u - p_t0 s)) as SR. unfold in_i64, sat64, min_i64, max_i64, step_wait_ns, sec_ns in *.
-    destruct (Z.ltb_spec (u_now u - p_t0 s) (-9223372036854775808)); [lia|].
-    destruct (Z.ltb_spec 9223372036854775807 (u_now u - p_t0 s)).
-    - destruct (Z.ltb_spec (2 * 1000000000) 9223372036854775807); [|lia].
-      destruct (Z.ltb_spec (2 * 1000000000) (u_now u - p_t0 s)); [reflexivity|lia].
-    - reflexivity. }
+  { unfold step_due. rewrite <- T0. rewrite (wait_sat (u_now u) (p_t0 s)). reflexivity. }
   rewrite SD. destruct (step_due o u) eqn:Due.
   2:{ eexists _, _, _, _. split; [reflexivity|]. split.
       - rewrite (ost_step_same o u _ S Mo HP Eo). unfold ost_calls. rewrite Dc, Due. reflexivity.
       - unfold set_t. rel_intro; [left; repeat split; assumption|exact HNI]. }
   rewrite dur_abs_inv by exact Hoff.
-  assert (AB : (step_min_ns <? Z.min (Z.abs (u_off u)) max_i64) = (step_min_ns <? Z.abs (u_off u))).
-  { unfold step_min_ns, max_i64. destruct (Z.ltb_spec 1000000 (Z.abs (u_off u))); destruct (Z.ltb_spec 1000000 (Z.min (Z.abs (u_off u)) 9223372036854775807)); lia. }
+  pose proof (min_abs_lt (u_off u)) as AB.
   rewrite AB. destruct (step_min_ns <? Z.abs (u_off u)) eqn:A.
   + eexists _, _, _, _. split; [reflexivity|]. split.
     * rewrite (ost_step_same o u _ S Mo HP Eo). unfold ost_calls. rewrite Dc, Due, A. cbn [negb].
